@@ -113,16 +113,31 @@ impl Scheduler {
     }
 
     fn tick(thread: &mut Thread, execution: &mut Execution) -> VecDeque<QueuedSpawn> {
-        let mut queued_spawn = VecDeque::new();
+        // The closures of threads that were spawned but never started. When
+        // the execution fails they would be dropped outside of the model,
+        // where a destructor cannot perform any loom operation without
+        // panicking a second time: they are leaked instead.
+        struct LeakOnPanic(VecDeque<QueuedSpawn>);
+
+        impl Drop for LeakOnPanic {
+            fn drop(&mut self) {
+                if std::thread::panicking() {
+                    std::mem::forget(std::mem::take(&mut self.0));
+                }
+            }
+        }
+
+        let mut queued_spawn = LeakOnPanic(VecDeque::new());
         let state = RefCell::new(State {
             execution,
-            queued_spawn: &mut queued_spawn,
+            queued_spawn: &mut queued_spawn.0,
         });
 
         STATE.set(unsafe { transmute_lt(&state) }, || {
             thread.resume();
         });
-        queued_spawn
+
+        std::mem::take(&mut queued_spawn.0)
     }
 
     fn with_state<F, R>(f: F) -> R
